@@ -1,4 +1,5 @@
 import LopdfModel.Lemmas.Move
+import LopdfModel.Lemmas.Edit
 /-
   C10 — property theorems (renumbering objects preserves the document graph).
   * `traverse_visits_once`, `traverse_closed`, `traverse_eq_reach` (Lemmas/Traverse.lean): the work-list
@@ -303,5 +304,135 @@ theorem rename_pass_iso_partial (bks : List Nat) (os : Objects) (bm : BkTable) (
   split <;> simp [(deep_rename pairs).1]
 
 example : (([((5,0),(2,0))] : List (ObjId × ObjId)).map (·.1)).Nodup ∧ (([((5,0),(2,0))] : List (ObjId × ObjId)).map (·.2)).Nodup := by decide
+
+
+/-! ### the whole call as an isomorphism when no page reordering is needed -/
+
+theorem denseSpec_sublist_assign (ids : List ObjId) (s : Nat) : (denseSpec ids s).Sublist (assign ids s) := by
+  induction ids generalizing s with
+  | nil => simp [denseSpec, assign]
+  | cons id rest ih =>
+    simp only [denseSpec, assign]
+    split
+    · simp; exact ih _
+    · simp; exact List.Sublist.cons _ (ih _)
+
+theorem assign_news_nodup (ids : List ObjId) (s : Nat) : ((assign ids s).map (·.2)).Nodup := by
+  have h : (((assign ids s).map (·.2)).map (·.1)).Nodup := by
+    rw [List.map_map]
+    have := assign_numbers ids s
+    simp only [Function.comp_def] at *
+    rw [this]; exact List.nodup_range'
+  exact List.Pairwise.of_map (·.1) (fun a b hab e => hab (by rw [e])) h
+
+theorem denseSpec_news_nodup (ids : List ObjId) (s : Nat) : ((denseSpec ids s).map (·.2)).Nodup :=
+  ((denseSpec_sublist_assign ids s).map _).nodup (assign_news_nodup ids s)
+
+theorem lookupId_of_mem (m : List (ObjId × ObjId)) (hn : (m.map (·.1)).Nodup) (p : ObjId × ObjId) (hp : p ∈ m) :
+    lookupId m p.1 = some p.2 := by
+  obtain ⟨v, hv⟩ := lookupId_some m p.1 (List.mem_map_of_mem hp)
+  have := eq_of_nodup_map_fst hn (lookupId_mem m p.1 v hv) hp rfl
+  rw [hv]; rw [← this]
+
+/-- the renaming of the dense pass maps every old id to its assigned new id -/
+theorem rho_assign (ids : List ObjId) (s : Nat) (hn : ids.Nodup) : ∀ p ∈ assign ids s, rhoFn (denseSpec ids s) p.1 = p.2 := by
+  intro p hp
+  have h1 : ((denseSpec ids s).map (·.1)).Nodup := (denseSpec_olds_sublist ids s).nodup hn
+  by_cases hmv : p.1.1 = p.2.1
+  · have hpe : p.2 = p.1 := Prod.ext hmv.symm (assign_gen ids s p hp)
+    have hasn : ((assign ids s).map (·.1)).Nodup := by rw [assign_olds]; exact hn
+    have hko : p.1 ∉ (denseSpec ids s).map (·.1) := by
+      intro hm
+      obtain ⟨q, hq, hqk⟩ := List.mem_map.mp hm
+      have hq' := denseSpec_sub ids s q hq
+      have : q = p := eq_of_nodup_map_fst hasn hq'.1 hp hqk
+      rw [this] at hq'; exact hq'.2 hmv
+    simp [rhoFn, lookupId_none _ _ hko, hpe]
+  · have := lookupId_of_mem _ h1 p (denseSpec_mem ids s p hp hmv)
+    simp [rhoFn, this]
+
+/-- **C10, renumber_iso when the pages are already in id order (partial: no page reordering).**
+For every document with a sorted object map and `1 ≤ start + n ≤ u32::MAX` whose page-order pass is the
+identity, `renumber_objects_with(start)` returns a document `d'` and there is a renaming `rho` — the dense
+assignment — that is one-to-one on the document's ids, with `trailer' = rename rho trailer`, and the object of
+every id `old` found at `rho old`: renamed by `rho` when it is reachable from the new trailer, untouched
+otherwise. -/
+theorem renumber_iso_noreorder (d : Doc) (start : Nat) (hs : d.objects.Sorted)
+    (hno : pagePairs (pageIter d.trailer d.objects) = none)
+    (hlo : 1 ≤ start + d.objects.length) (hhi : start + d.objects.length ≤ U32_MAXE) :
+    ∃ d' rho, renumber d start = .ok d' ∧
+      (∀ p ∈ assign (sortBy idLeE d.objects.keys) start, rho p.1 = p.2) ∧
+      (∀ a b, (d.objects.get a).isSome → (d.objects.get b).isSome → rho a = rho b → a = b) ∧
+      d'.trailer = mapRefsD rho d.trailer ∧
+      (∀ old o, d.objects.get old = some o →
+        (Reach (refsOfD d'.trailer) (fun id => d'.objects.get id) (rho old) → d'.objects.get (rho old) = some (mapRefs rho o)) ∧
+        (¬ Reach (refsOfD d'.trailer) (fun id => d'.objects.get id) (rho old) → d'.objects.get (rho old) = some o)) := by
+  have hperm := sortBy_perm idLeE d.objects.keys
+  have hlen : (sortBy idLeE d.objects.keys).length = d.objects.length := by
+    rw [hperm.length_eq]; simp [Objects.keys]
+  have hn : (sortBy idLeE d.objects.keys).Nodup := hperm.nodup_iff.mpr (Objects.sorted_nodup _ hs)
+  have hk : ∀ k, k ∈ sortBy idLeE d.objects.keys ↔ (d.objects.get k).isSome := by
+    intro k; rw [hperm.mem_iff]; exact Objects.mem_keys_iff _ _
+  generalize hids : sortBy idLeE d.objects.keys = ids at *
+  have hpp : pagePass d = d := by unfold pagePass; rw [hno]
+  have h1 : ((denseSpec ids start).map (·.1)).Nodup := (denseSpec_olds_sublist ids start).nodup hn
+  have hmemid : ∀ p ∈ assign ids start, p.1 ∈ ids := by
+    intro p hp; rw [← assign_olds ids start]; exact List.mem_map_of_mem hp
+  have h2 : ∀ p ∈ denseSpec ids start, d.objects.get p.1 ≠ none := by
+    intro p hp
+    have := (hk p.1).mp (hmemid p (denseSpec_sub ids start p hp).1)
+    intro e; rw [e] at this; cases this
+  have h3 := denseSpec_news_nodup ids start
+  have hrho := rho_assign ids start hn
+  have h4 : ∀ p ∈ denseSpec ids start, ∀ k, (d.objects.get k).isSome → k ∉ (denseSpec ids start).map (·.1) → p.2 ≠ k := by
+    intro p hp k hkk hko e
+    have hkid := (hk k).mpr hkk
+    rw [← assign_olds ids start] at hkid
+    obtain ⟨q, hq, hqk⟩ := List.mem_map.mp hkid
+    have hq2 : q.2 = k := by
+      by_cases hmv : q.1.1 = q.2.1
+      · rw [← hqk]; exact Prod.ext hmv.symm (assign_gen ids start q hq)
+      · exact absurd (hqk ▸ List.mem_map_of_mem (denseSpec_mem ids start q hq hmv)) hko
+    have hpq := assign_inj ids start p (denseSpec_sub ids start p hp).1 q hq (by rw [e, hq2])
+    apply hko; rw [← hqk, ← hpq]; exact List.mem_map_of_mem hp
+  obtain ⟨iso1, iso2⟩ := rename_pass_iso_partial d.bookmarks d.objects d.bmTable d.trailer (denseSpec ids start) h1 h2 h3 h4
+  have hren : renumber d start = .ok
+      { d with trailer := (traverse (renameAct (movePass d.bookmarks d.objects d.bmTable (denseSpec ids start)).replace) d.trailer
+                  (movePass d.bookmarks d.objects d.bmTable (denseSpec ids start)).objects).1,
+               objects := (traverse (renameAct (movePass d.bookmarks d.objects d.bmTable (denseSpec ids start)).replace) d.trailer
+                  (movePass d.bookmarks d.objects d.bmTable (denseSpec ids start)).objects).2.1,
+               bmTable := (movePass d.bookmarks d.objects d.bmTable (denseSpec ids start)).bm,
+               maxId := start + d.objects.length - 1 } := by
+    unfold renumber densePass
+    rw [hpp, hids, densePairs_eq _ _ _ (by rw [hlen]; exact hhi)]
+    simp only [List.nil_append, hlen]
+    have h0 : ¬ (start + d.objects.length = 0) := by omega
+    simp only [h0, if_false]
+  refine ⟨_, rhoFn (denseSpec ids start), hren, hrho, ?_, ?_, ?_⟩
+  · intro a b ha hb e
+    have ha' := (hk a).mpr ha; have hb' := (hk b).mpr hb
+    rw [← assign_olds ids start] at ha' hb'
+    obtain ⟨p, hp, hpa⟩ := List.mem_map.mp ha'
+    obtain ⟨q, hq, hqb⟩ := List.mem_map.mp hb'
+    rw [← hpa, ← hqb, hrho p hp, hrho q hq] at e
+    have := assign_inj ids start p hp q hq (by rw [e])
+    rw [← hpa, ← hqb, this]
+  · exact iso1
+  · intro old o ho
+    have hobj := iso2 old o ho
+    simp only
+    constructor
+    · intro hr
+      have hin := (traverse_eq_reach _ _ _ _).mpr hr
+      rw [hobj]; simp [hin]
+    · intro hr
+      have hnin : ¬ _ := fun hin => hr ((traverse_eq_reach _ _ _ _).mp hin)
+      rw [hobj]; simp [hnin]
+
+example : pagePairs (pageIter [] [((3, 0), Obj.null), ((7, 0), Obj.null)]) = none ∧
+    Objects.Sorted [((3, 0), Obj.null), ((7, 0), Obj.null)] := by
+  constructor
+  · decide
+  · simp [Objects.Sorted, Objects.keys, idLt]
 
 end Lopdf
